@@ -123,11 +123,15 @@ static void apply(const op_t * o) {
         int full = ctx.error_queue.count == ctx.error_queue.size;
         int lastslot = (ctx.error_queue.wr + ctx.error_queue.size - 1) % ctx.error_queue.size;
         int lasttext = ctx.error_queue.count > 0 && eq[lastslot].device_dependent_info != NULL;
-        /* mode 0: NUL-terminated text, automatic length; mode 1: explicit length, other bytes follow the text */
-        char * src = malloc((size_t) o->len + 3);
+        /* mode 0: NUL-terminated text, automatic length; mode 1: explicit length, other bytes follow the text;
+           mode 2: NUL-terminated text in a longer field, the length of the field is given (other bytes behind the NUL) */
+        char * src = malloc((size_t) o->len + 6);
         int i;
         for (i = 0; i < o->len; i++) src[i] = (char) text_byte(o->shape, i);
-        if (o->mode == 1 && o->len > 0) {
+        if (o->mode == 2 && o->len > 0) {
+            src[o->len] = 0; src[o->len + 1] = 'Z'; src[o->len + 2] = 'Z'; src[o->len + 3] = 'Z'; src[o->len + 4] = 'Z'; src[o->len + 5] = 0;
+            SCPI_ErrorPushEx(&ctx, (int16_t) o->code, src, (size_t) o->len + 5);
+        } else if (o->mode == 1 && o->len > 0) {
             src[o->len] = 'X'; src[o->len + 1] = 'Y'; src[o->len + 2] = 0;
             SCPI_ErrorPushEx(&ctx, (int16_t) o->code, src, (size_t) o->len);
         } else {
@@ -236,7 +240,7 @@ static void make_alphabet(int ncodes, char ** codes) {
             for (shape = 1; shape <= 3; shape++) {
                 if (len == 0 && shape > 1) continue;
                 if (len == 1 && shape == 3) continue;
-                add_op(0, atoi(codes[c]), shape, len, shape == 3 ? 1 : 0);
+                add_op(0, atoi(codes[c]), shape, len, shape == 3 ? 1 : shape == 2 ? 2 : 0);
             }
     add_op(1, 0, 0, 0, 0); add_op(2, 0, 0, 0, 0); add_op(3, 0, 0, 0, 0);
 }
@@ -321,10 +325,10 @@ static int walk(unsigned long seedv, long steps, const char * outpath, long dump
         strcpy(from, state_str());
         if (qn == 0 && r < 30) {
             /* the heap must be as good as new: the longest text that fits an empty heap */
-            o.kind = 0; o.code = wcodes[rnd() % 11]; o.shape = 1 + rnd() % 3; o.len = hsize - 1; o.mode = rnd() % 2;
+            o.kind = 0; o.code = wcodes[rnd() % 11]; o.shape = 1 + rnd() % 3; o.len = hsize - 1; o.mode = rnd() % 3;
         } else if (r < 58) {
             unsigned m = rnd() % 8;
-            o.kind = 0; o.code = wcodes[rnd() % 11]; o.shape = 1 + rnd() % 3; o.mode = rnd() % 2;
+            o.kind = 0; o.code = wcodes[rnd() % 11]; o.shape = 1 + rnd() % 3; o.mode = rnd() % 3;
             if (m < 4) o.len = rnd() % (hsize / 3 + 2);
             else if (m < 6) o.len = rnd() % (hsize + 1);
             else if (m < 7) { long fr = (long) ctx.error_info_heap.count - 2 + (long) (rnd() % 3); o.len = fr < 0 ? 0 : (int) fr; }
